@@ -58,6 +58,13 @@ func checkC05(c *Ctx) {
 		c.guard(p, "C05.order", "true only via strict '<' against the order", p.Func(pk, "", "isLessThanOrder"),
 			GuardSpec{BinAssumes: []BinAssume{{Name: "x[i] < order[i]", Match: strictLessIn(pk + ".isLessThanOrder"), Val: latFalse}}})
 	}
+	// Ed448: S has 57 bytes and the order 56: a non-zero last byte means S >= 2^448 > L
+	{
+		f := p.Func(e4, "", "isLessThanOrder")
+		c.guard(p, "C05.order", "a scalar whose 57th byte is not zero is not below the order", f, GuardSpec{BinAssumes: []BinAssume{
+			binDesc(f, "x[56] compared with 0", `param#0\[56\] == 0|0 == param#0\[56\]`, latFalse),
+			binDesc(f, "x[56] compared with 0", `param#0\[56\] != 0|0 != param#0\[56\]`, latTrue)}})
+	}
 	c.guard(p, "C05.reject", "context longer than 255 bytes", p.Func(e4, "", "verify"), GuardSpec{Args: map[string]lat{"ctx": latBigSlice}})
 	for _, n := range []string{"VerifyPh", "VerifyWithCtx"} {
 		c.guard(p, "C05.reject", "context longer than 255 bytes", p.Func(ed, "", n), GuardSpec{Args: map[string]lat{"ctx": latBigSlice}})
